@@ -977,7 +977,7 @@ class Filter:
     def evaluate(self, left: object, context: RenderContext) -> object:
         func = context.filter(self.name, token=self.token)
         positional_args, keyword_args = self.evaluate_args(context)
-        self._check_reserved_keywords(func, keyword_args)
+        self._check_reserved_keywords(context, keyword_args)
         try:
             return func(left, *positional_args, **keyword_args)
         except (
@@ -995,7 +995,7 @@ class Filter:
     async def evaluate_async(self, left: object, context: RenderContext) -> object:
         func = context.filter(self.name, token=self.token)
         positional_args, keyword_args = await self.evaluate_args_async(context)
-        self._check_reserved_keywords(func, keyword_args)
+        self._check_reserved_keywords(context, keyword_args)
 
         try:
             return func(left, *positional_args, **keyword_args)
@@ -1012,7 +1012,7 @@ class Filter:
             raise err
 
     def _check_reserved_keywords(
-        self, func: object, keyword_args: dict[str, object]
+        self, context: RenderContext, keyword_args: dict[str, object]
     ) -> None:
         """Raise an error if a template argument would replace one of ours.
 
@@ -1020,8 +1020,15 @@ class Filter:
         keyword arguments. A keyword argument with the same name written in a template
         would silently take their place.
         """
-        for name in getattr(func, "keywords", None) or ():
-            if name in keyword_args:
+        if not keyword_args:
+            return
+
+        filter_func = context.env.filters.get(self.name)
+        for name, flag in (
+            ("context", "with_context"),
+            ("environment", "with_environment"),
+        ):
+            if name in keyword_args and getattr(filter_func, flag, False):
                 raise LiquidTypeError(
                     f"{self.name}: unexpected keyword argument '{name}'",
                     token=self.token,
